@@ -9,7 +9,7 @@ Extraction "model.ml"
   Registry.run Registry.a_run Registry.trace Registry.trace_okb
   Sched.exec Sched.all_done Sched.strace Sched.once_okb Sched.visible_okb Sched.late_okb Listing.listed_okb
   Exec.exec_op Exec.printed_args Exec.doc_rejects Exec.get_field_def ExecSpec.sem_op ExecSpec.nodup_keys ExecSpec.wf_doc
-  Coerce.coerce_input Coerce.leaf_out Coerce.conforms Coerce.denotes Coerce.has_shape Coerce.out_faithful
+  Coerce.coerce_input Coerce.leaf_out Coerce.conforms Coerce.denotes Coerce.only_declared Coerce.has_shape Coerce.out_faithful
   Text.parse_value Text.write_value Text.parse_int64 Json.json_parse Json.to_json
   Schema.loads_m Schema.observe Schema.view_of_items Schema.ok Schema.errors_in Schema.drop_core_redecl
   Introspect.schema_answer Introspect.type_answer Introspect.dec_type
